@@ -37,18 +37,19 @@ def run(ctx: Ctx) -> Result:
         committed = T.Script.from_src(rng.choice(['true', 'push d2 push d2 equal', 'depth push d0 equal']))
         inp = {'seeds': [s.hex() for s in seeds[:2]], 'lock_flags': lf, 'witness_flags': wf, 'sigfields': {k: v.hex() for k, v in sf.items()}}
         res.note_case((tuple(seeds), lf, wf, tuple(sorted(sf))))
+        hs_ = [26, 26, 20, 32, 16, 64, 2, 127][it % 8]          # the commitment's hash size is the builder's parameter
         locks = {
             'single': try_build(T.make_single_sig_lock, pks[0], lf),
             'single2': try_build(T.make_single_sig_lock2, pks[0], lf),
             'multisig': try_build(T.make_multisig_lock, [pks[0], pks[1], pks[2]], 2, lf),
-            'scripthash': try_build(T.make_scripthash_lock, committed),
+            'scripthash': try_build(T.make_scripthash_lock, committed, hs_),
             'graftroot': try_build(T.make_graftroot_lock, pks[0], lf),
             'graftap': try_build(T.make_graftap_lock, pks[0], lf),
         }
         B.build(f'BUILD2 single_sig_lock {pks[0].hex()} {int(lf, 16)}', hexof(locks['single']))
         B.build(f'BUILD2 single_sig_lock2 {pks[0].hex()} {int(lf, 16)}', hexof(locks['single2']))
         B.build(f'BUILD2 multisig_lock 2 {int(lf, 16)} {pks[0].hex()} {pks[1].hex()} {pks[2].hex()}', hexof(locks['multisig']))
-        B.build(f'BUILD2 scripthash_lock {committed.bytes.hex()} 26', hexof(locks['scripthash']))
+        B.build(f'BUILD2 scripthash_lock {committed.bytes.hex()} {hs_}', hexof(locks['scripthash']))
         B.build(f'BUILD2 graftroot_lock {pks[0].hex()} {int(lf, 16)}', hexof(locks['graftroot']))
         B.build(f'BUILD2 graftap_lock {pks[0].hex()} {int(lf, 16)}', hexof(locks['graftap']))
         if any(isinstance(l, str) for l in locks.values()):
